@@ -536,7 +536,8 @@ impl AsmParser {
                 }
                 TokenKind::Lit(_) => {
                     let val = self.expect_lit(Bits::Signed(bits))?;
-                    let label = Label::Ref(self.line + 1 + val);
+                    // Target line modulo 2^16, `bit_offs` takes the difference modulo 2^16 too
+                    let label = Label::Ref(self.line.wrapping_add(1).wrapping_add(val));
                     Ok(label)
                 }
                 _ => {
